@@ -41,6 +41,18 @@ def main(argv):
             print(c, k, "first idx", firsts[k])
         print("nontrivial", nontriv, "of", hi - lo, "inconclusive", dict(inconc))
         return 0
+    if argv and argv[0] == "--pin":
+        fams = argv[1].split(",")
+        n = int(argv[2])
+        best = pin(fams, n)
+        out = {}
+        for k, (size, fname, case, detail) in sorted(best.items()):
+            print(size, k, detail[:200])
+            out["|".join(k)] = {"family": fname, "case": case, "detail": detail}
+        json.dump(out, open(argv[3], "w"), indent=1)
+        return 0
+    if argv and argv[0] == "--write-known":
+        return write_known(argv[2:], argv[1])
     path = argv[0]
     rp = json.load(open(path))
     if "case" in rp and "family" in rp:
@@ -63,6 +75,154 @@ def main(argv):
                 print("     ", row)
             break
     return 0
+
+
+
+WHAT = {
+    "one-ballot-carried-two-values": "PaxosNode restarts phase 2 on every Promise beyond the quorum; a late Promise with an accepted value makes it send a second value under the same ballot, and two nodes decide different values",
+    "phase2-resent-duplicate-accepted-counted-as-quorum": "PaxosNode re-sends Accept on every late Promise, the same acceptor answers Accepted twice and the duplicates are counted as a quorum; a value accepted by a minority is decided and another value is decided later",
+    "accepted-counted-for-ballot-abandoned-by-retry": "PaxosNode counts Accepted messages for a ballot it abandoned in a Nack-driven retry and decides _proposed_values.get(old ballot) == None (a value nobody proposed; other nodes may decide a real value)",
+    "phase2-run-for-ballot-abandoned-by-retry": "PaxosNode starts phase 2 for a ballot it abandoned in a retry when a late Promise arrives, sending Accept(value=None); None is accepted, adopted by a later ballot and decided",
+    "accept-for-later-slot-appended-at-log-end": "{c} appends the command of an Accept for slot s at log end even when its log is shorter than s-1 (Accepts overtaking each other), so the command sits in the wrong slot and is committed there",
+    "follower-commit-index-advanced-over-divergent-entry": "{c} follower advances commit_index to the leader's commit index over whatever entry it holds in that slot (an entry from another ballot), deciding a different command than the leader",
+    "new-leader-overwrites-slot-reported-in-promise": "{c} ignores the log entries reported in Promises: a new leader proposes its own command for a slot another leader already committed",
+    "two-leaders-proposed-different-commands-for-slot": "{c}: two leaders (ballot numbers collide / no recovery of accepted entries) each get their own command committed in the same slot",
+    "submit-to-established-leader-never-replicated": "{c}.submit() on an established leader only appends to the local log; no Accept is ever sent, so the command is never decided or applied (the repository's example calls the private _replicate_slot itself)",
+    "leader-demoted-by-own-heartbeat": "MultiPaxosNode handles its own heartbeat timer event as a heartbeat from another leader: it sets is_leader=False after one interval and stops sending heartbeats, so followers never learn the commit index",
+    "future-kept-for-slot-overwritten-by-other-leader": "{c} keeps a submit() future under its slot number after the entry was overwritten by another leader; the future resolves with the slot of a different command",
+    "committed-entry-truncated-by-accept-of-other-ballot": "{c} truncates its log from a slot it already reported committed when an Accept of another ballot arrives (commit_index goes back, the decided command changes)",
+    "member-views-differed/term-from-local-counter": "LeaderElection terms are local counters (+1 per own election / per victory received, the announced term is ignored): participants whose member views differ for a while report different leaders for one term number",
+    "member-views-differed/announced-terms-collide": "LeaderElection: two participants with different member views each win an election and announce the same term number (local counters), followers adopt both (term, leader) pairs",
+}
+SLUG = {
+    "one-ballot-carried-two-values": "two-values",
+    "phase2-resent-duplicate-accepted-counted-as-quorum": "dup-accepted",
+    "accepted-counted-for-ballot-abandoned-by-retry": "abandoned-accepted",
+    "phase2-run-for-ballot-abandoned-by-retry": "abandoned-phase2",
+    "accept-for-later-slot-appended-at-log-end": "gap-append",
+    "follower-commit-index-advanced-over-divergent-entry": "commit-by-index",
+    "new-leader-overwrites-slot-reported-in-promise": "no-recovery",
+    "two-leaders-proposed-different-commands-for-slot": "two-leaders-slot",
+    "submit-to-established-leader-never-replicated": "submit-not-replicated",
+    "leader-demoted-by-own-heartbeat": "self-demotion",
+    "future-kept-for-slot-overwritten-by-other-leader": "stale-slot-future",
+    "committed-entry-truncated-by-accept-of-other-ballot": "truncate-committed",
+    "member-views-differed/term-from-local-counter": "local-terms",
+    "member-views-differed/announced-terms-collide": "local-terms-announced",
+}
+CS = {"PaxosNode": "paxos", "MultiPaxosNode": "multipaxos", "FlexiblePaxosNode": "flexpaxos", "LeaderElection": "election"}
+
+
+def write_known(pin_files: list[str], out_path: str) -> int:
+    """Turn pin files (from --pin) into the known-findings list; refuses pins that show an unlisted key."""
+    from hsverif.props import c12
+
+    pins: dict = {}
+    for f in pin_files:
+        pins.update(json.load(open(f)))
+    out = []
+    for k, p in sorted(pins.items()):
+        comp, oracle, shape = k.split("|")
+        r = c12.FAMILIES[p["family"]].run(p["case"])
+        keys = {"|".join(v.key()) for v in r.violations}
+        if k not in keys or not keys <= set(pins):
+            print("REJECTED pin", k, "keys now:", keys)
+            continue
+        e = {
+            "status": "known",
+            "property": "C12",
+            "id": f"C12-{CS[comp]}-{oracle}-{SLUG[shape]}",
+            "component": comp,
+            "oracle": oracle,
+            "shape": shape,
+            "what": WHAT[shape].format(c=comp),
+            "witness": {"family": p["family"], "case": p["case"]},
+            "observed": p["detail"][:300],
+        }
+        if comp == "PaxosNode":
+            e["fix_proposed"] = "C12-paxos-phase2-once.diff"
+        if shape == "leader-demoted-by-own-heartbeat":
+            e["fix_proposed"] = "C12-multipaxos-self-heartbeat.diff"
+        out.append(e)
+    json.dump(out, open(out_path, "w"), indent=1)
+    print("wrote", len(out), "entries")
+    return 0
+
+
+LIST_FIELDS = ["partitions", "crashes", "adds", "proposals", "submits", "starts", "ops"]
+
+
+def shrink_case(case: dict, fails, max_tests: int = 120) -> dict:
+    """Greedy shrink of a C12 case: drop list items, drop loss / rules, shorten the run."""
+    from hsverif.core import ddmin
+
+    cur = dict(case)
+    for f in LIST_FIELDS:
+        items = cur.get(f)
+        if not items:
+            continue
+        if fails({**cur, f: []}):
+            cur = {**cur, f: []}
+            continue
+        if len(items) >= 2:
+            small = ddmin(items, lambda it, f=f: fails({**cur, f: it}), max_tests=max_tests)
+            cur = {**cur, f: small}
+    sc = cur.get("script")
+    if isinstance(sc, dict):
+        for patch in ({"loss": 0.0}, {"rules": []}, {"asym": {}}):
+            k = next(iter(patch))
+            if sc.get(k) and fails({**cur, "script": {**sc, **patch}}):
+                sc = {**sc, **patch}
+                cur = {**cur, "script": sc}
+    if "end" in cur and cur.get("mode") != "live":
+        lo, hi = 0.0, cur["end"]
+        for _ in range(12):
+            mid = round((lo + hi) / 2, 6)
+            if fails({**cur, "end": mid}):
+                hi = mid
+            else:
+                lo = mid
+        cur = {**cur, "end": hi}
+    return cur
+
+
+def pin(families: list[str], n: int, seed: int = 0, per_key: int = 4) -> dict:
+    """Scan n cases per family, keep up to per_key witnesses per mechanism key, shrink, return smallest per key."""
+    import json as _json
+
+    from hsverif.props import c12
+
+    best: dict = {}
+    for fname in families:
+        fam = c12.FAMILIES[fname]
+        cands: dict = {}
+        for i in range(n):
+            case = fam.gen(case_rng(seed, "C12", fname, i), "quick")
+            r = fam.run(case)
+            for k in {v.key() for v in r.violations}:
+                lst = cands.setdefault(k, [])
+                if len(lst) < per_key:
+                    lst.append(case)
+        for k, lst in cands.items():
+            for case in lst:
+
+                allowed = {v.key() for v in fam.run(case).violations}
+
+                def fails(c, k=k, allowed=allowed):
+                    try:
+                        rr = fam.run(c)
+                    except Exception:  # noqa: BLE001
+                        return False
+                    keys = {v.key() for v in rr.violations}
+                    return k in keys and keys <= allowed
+
+                small = shrink_case(case, fails)
+                size = len(_json.dumps(small))
+                if k not in best or size < best[k][0]:
+                    rr = fam.run(small)
+                    v = next(v for v in rr.violations if v.key() == k)
+                    best[k] = (size, fname, small, v.detail)
+    return best
 
 
 def gen_case(family: str, idx: int, seed: int = 0):
